@@ -48,6 +48,87 @@ theorem json_number_value_fails (h : Generated.lyjsonExpLeadingZeroFixed = false
   rw [this] at hd
   cases hd
 
+-- AUDIT: `f14_witness` and `json_number_value_fails` take `Generated.lyjsonExpLeadingZeroFixed = false` — an equation
+-- between a generated constant and a literal.  In the tree as it is generated now (`fixes/F14.diff` applied, F14 is
+-- `fixed`) the constant is `true`: both theorems are vacuous for the source that is being checked
+-- (`json_number_value_fails_vacuous_for_fixed_source`), and since the positive statement is OPEN (below), this file
+-- proves NOTHING about `JsonNumberValue` on the current source; it is carried by the (L) law of the check only.  The
+-- same holds for the second `example` under `json_exp_number_in_bounds` in `Props/C05.lean`.
+-- Minimal repair of the statement: keep `json_number_value_fails` as the record of 3.7.8 and state the claim for the
+-- other value of the switch, `Generated.lyjsonExpLeadingZeroFixed = true → JsonNumberValue` (the OPEN
+-- `json_number_value_partial` restricted to its first disjunct), so that for either value of the switch one of the two
+-- theorems speaks.  That proof is the OPEN item and not a one-hour job.  Added here instead, as the part that is cheap:
+-- on the fixed source the conclusion of `JsonNumberValue` holds at the F14 witnesses `0.5e1` (new integer branch) and
+-- `0.10203e3` (rewritten branch) — `json_number_value_at_f14_witnesses_fixed`.  Together with `json_number_value_fails`
+-- the pair is non-vacuous whatever the translator finds.
+
+/-- the hypothesis of `f14_witness` / `json_number_value_fails` is false of a source with the fixed branch -/
+theorem json_number_value_fails_vacuous_for_fixed_source (h : Generated.lyjsonExpLeadingZeroFixed = true) :
+    ¬ (Generated.lyjsonExpLeadingZeroFixed = false) := by simp [h]
+
+
+/-- `0.5e1,` on the fixed source (`composeB4`: the integer result `5`) -/
+theorem f14_witness_fixed (h : Generated.lyjsonExpLeadingZeroFixed = true) :
+    number [48, 46, 53, 101, 49, 44] =
+      .ok { value := [53], consumed := 5, dyn := true, exp := some { bufLen := 1, writes := [(0, 53), (1, 0)], lens := [1, 0] } } := by
+  have hc : compose [48, 46, 53, 101, 49, 44] (prep [48, 46, 53, 101, 49, 44] 3 (expVal [48, 46, 53, 101, 49, 44] 3)) =
+      composeB4 [48, 46, 53, 101, 49, 44] (prep [48, 46, 53, 101, 49, 44] 3 (expVal [48, 46, 53, 101, 49, 44] 3)) := by
+    unfold compose; rw [h]; rfl
+  have hn : number [48, 46, 53, 101, 49, 44] = (match expNumber [48, 46, 53, 101, 49, 44] 3 with
+      | .error x => .error x
+      | .ok r => .ok { value := r.value, consumed := 5, dyn := true, exp := some r }) := by rfl
+  rw [hn]
+  have he : expNumber [48, 46, 53, 101, 49, 44] 3 = .ok { bufLen := 1, writes := [(0, 53), (1, 0)], lens := [1, 0] } := by
+    have hb : composeB4 [48, 46, 53, 101, 49, 44] (prep [48, 46, 53, 101, 49, 44] 3 (expVal [48, 46, 53, 101, 49, 44] 3))
+        = (1, [(0, 53)], [1, 0]) := by decide
+    unfold expNumber
+    simp only [hc, hb]
+    rfl
+  rw [he]
+  rfl
+
+/-- `0.10203e3,` on the fixed source goes through the rewritten branch (`composeB2fixed`): `102.03` (3.7.8: `10.20`) -/
+theorem f14_witness2_fixed (h : Generated.lyjsonExpLeadingZeroFixed = true) :
+    number [48, 46, 49, 48, 50, 48, 51, 101, 51, 44] =
+      .ok { value := [49, 48, 50, 46, 48, 51], consumed := 9, dyn := true,
+            exp := some { bufLen := 6, writes := [(0, 49), (1, 48), (2, 50), (3, 46), (4, 48), (5, 51), (6, 0)], lens := [5] } } := by
+  have hc : compose [48, 46, 49, 48, 50, 48, 51, 101, 51, 44] (prep [48, 46, 49, 48, 50, 48, 51, 101, 51, 44] 7 (expVal [48, 46, 49, 48, 50, 48, 51, 101, 51, 44] 7)) =
+      composeB2fixed [48, 46, 49, 48, 50, 48, 51, 101, 51, 44] (prep [48, 46, 49, 48, 50, 48, 51, 101, 51, 44] 7 (expVal [48, 46, 49, 48, 50, 48, 51, 101, 51, 44] 7)) := by
+    unfold compose; rw [h]; rfl
+  have hn : number [48, 46, 49, 48, 50, 48, 51, 101, 51, 44] = (match expNumber [48, 46, 49, 48, 50, 48, 51, 101, 51, 44] 7 with
+      | .error x => .error x
+      | .ok r => .ok { value := r.value, consumed := 9, dyn := true, exp := some r }) := by rfl
+  rw [hn]
+  have he : expNumber [48, 46, 49, 48, 50, 48, 51, 101, 51, 44] 7 = .ok { bufLen := 6, writes := [(0, 49), (1, 48), (2, 50), (3, 46), (4, 48), (5, 51), (6, 0)], lens := [5] } := by
+    have hb : composeB2fixed [48, 46, 49, 48, 50, 48, 51, 101, 51, 44] (prep [48, 46, 49, 48, 50, 48, 51, 101, 51, 44] 7 (expVal [48, 46, 49, 48, 50, 48, 51, 101, 51, 44] 7))
+        = (6, [(0, 49), (1, 48), (2, 50), (3, 46), (4, 48), (5, 51)], [5]) := by decide
+    unfold expNumber
+    simp only [hc, hb]
+    rfl
+  rw [he]
+  rfl
+
+/-- the conclusion of `JsonNumberValue` at both witnesses on the fixed source: exactly the text is consumed and the value
+    is a decimal string denoting the number written (5 and 102.03) -/
+theorem json_number_value_at_f14_witnesses_fixed (h : Generated.lyjsonExpLeadingZeroFixed = true) :
+    (∀ r, number (NumText.render { neg := false, ip := [48], fp := some [53], exp := some (false, none, [49]) } ++ [44]) = .ok r →
+      r.consumed = 5 ∧ ∃ d, parseDec r.value = some d ∧
+        SameValue { neg := false, ip := [48], fp := some [53], exp := some (false, none, [49]) } d) ∧
+    (∀ r, number (NumText.render { neg := false, ip := [48], fp := some [49, 48, 50, 48, 51], exp := some (false, none, [51]) } ++ [44]) = .ok r →
+      r.consumed = 9 ∧ ∃ d, parseDec r.value = some d ∧
+        SameValue { neg := false, ip := [48], fp := some [49, 48, 50, 48, 51], exp := some (false, none, [51]) } d) := by
+  refine ⟨fun r hr => ?_, fun r hr => ?_⟩
+  · have e : NumText.render { neg := false, ip := [48], fp := some [53], exp := some (false, none, [49]) } ++ [44]
+        = [48, 46, 53, 101, 49, 44] := by decide
+    rw [e, f14_witness_fixed h] at hr
+    cases hr
+    exact ⟨rfl, (false, 5, 0), by decide, by decide⟩
+  · have e : NumText.render { neg := false, ip := [48], fp := some [49, 48, 50, 48, 51], exp := some (false, none, [51]) } ++ [44]
+        = [48, 46, 49, 48, 50, 48, 51, 101, 51, 44] := by decide
+    rw [e, f14_witness2_fixed h] at hr
+    cases hr
+    exact ⟨rfl, (false, 10203, 2), by decide, by decide⟩
+
 /-
 -- OPEN: `json_number_value_partial` — the true part of `JsonNumberValue`:
 
